@@ -78,6 +78,11 @@ def main():
         i = args.index("--dir")
         SEEDED = os.path.join(HERE, args[i + 1])
         del args[i:i + 2]
+    out_name = "RESULTS.json"
+    if "--out" in args:      # e.g. --out MATRIX.json --props all : every check against every change
+        i = args.index("--out")
+        out_name = args[i + 1]
+        del args[i:i + 2]
     if "--jobs" in args:
         i = args.index("--jobs")
         jobs = int(args[i + 1])
@@ -92,6 +97,8 @@ def main():
             i += 2
         elif args[i] == "--props":
             props = args[i + 1].split(",")
+            if props == ["all"]:
+                props = [f"C{k:02d}" for k in range(1, 21)]
             i += 2
         else:
             ids.append(args[i])
@@ -105,7 +112,7 @@ def main():
             results.append(r)
             print(json.dumps(r))
             sys.stdout.flush()
-    path = os.path.join(SEEDED, "RESULTS.json")
+    path = os.path.join(SEEDED, out_name)
     old = {}
     if os.path.exists(path):
         old = {r["id"]: r for r in json.load(open(path))}
